@@ -8,6 +8,7 @@ import (
 	"flag"
 	"fmt"
 	"os"
+	"runtime"
 	"sort"
 	"strings"
 	"time"
@@ -251,9 +252,19 @@ func (k *kase) drain(w *world) {
 	}
 }
 
+var tNew, tTear, tRun time.Duration
+
 func runCase(k *kase, script []cmd, rng func(int) int, steps int) {
+	t0 := time.Now()
 	w := newWorld(k.budget, k.uid, k.park, append([]byte(nil), k.plan...), k.pdef)
-	defer w.teardown()
+	tNew += time.Since(t0)
+	t1 := time.Now()
+	defer func() {
+		tRun += time.Since(t1)
+		t2 := time.Now()
+		w.teardown()
+		tTear += time.Since(t2)
+	}()
 	// command 0: the initial state
 	k.exec(w, cmd{op: "relsrv"})
 	if script != nil {
@@ -552,10 +563,16 @@ func main() {
 		if len(st.Samples) < 5 {
 			st.Samples = append(st.Samples, name+": "+k.human())
 		}
+		if os.Getenv("C13_GOR") != "" && i%50 == 0 {
+			fmt.Println("case", i, "goroutines", runtime.NumGoroutine())
+		}
 		if *probeFlag != "" || os.Getenv("C13_VERBOSE") != "" {
 			fmt.Println(i, name)
 			fmt.Println(k.human())
 		}
+	}
+	if os.Getenv("C13_GOR") != "" {
+		fmt.Println("time new", tNew, "run", tRun, "teardown", tTear)
 	}
 	st.Evaluations = cfg.N
 	st.DistinctNontrivial = len(distinct)
